@@ -91,36 +91,37 @@ def onStartProcessing (c : Clock α) : Clock α :=
   let c3 := if c.cmds.reset then c2.reset else c2
   updateShared { c3 with cmds := ClockCmds.empty }
 
-/-- mirrors: the loop `while *tick_timer >= 1.0 { *tick_timer -= 1.0; *ticks += 1; }` of
-    clock.rs::Clock::update.  `none` = fuel exhausted (the loop does not end: `hang`). -/
-def tickLoop : Nat → Nat → α → Option (Nat × α)
-  | 0, _, _ => none
-  | fuel + 1, ticks, timer =>
-    if (1.0 : α) ≤ timer then tickLoop fuel (ticks + 1) (timer - (1.0 : α)) else some (ticks, timer)
+/-- mirrors: clock.rs::Clock::update (the tick counting),
+    `if *tick_timer >= 1.0 { let whole_ticks = tick_timer.floor();
+       *tick_timer = if whole_ticks.is_finite() { *tick_timer - whole_ticks } else { 0.0 };
+       *ticks = ticks.saturating_add(whole_ticks as u64); }`
+    — all the whole ticks at once.  It replaces the loop `while *tick_timer >= 1.0 { *tick_timer -= 1.0;
+    *ticks += 1 }` (`Proofs/ClockLemmas.lean`: `tickLoop`, `tickStep_eq_loop`), which never ended for a timer
+    of 2^53 or more (`x - 1.0 == x`), e.g. `SecondsPerTick(0.0)` or `TicksPerSecond(1e300)`.  No fuel. -/
+def tickStep (ticks : Nat) (timer : α) : Nat × α :=
+  if (1.0 : α) ≤ timer then
+    let whole := KOps.floor timer
+    (KOps.satU64 (α := α) (ticks + KOps.toNatSat whole),
+     if KOps.isFinite whole then timer - whole else (0.0 : α))
+  else (ticks, timer)
 
-/-- mirrors: clock.rs::Clock::update — returns the new clock and the "new tick count" result
-    (`none` on the outside = the tick loop ran out of fuel) -/
-def update (fuel : Nat) (c : Clock α) (dt : α) (info : Info α) : Option (Clock α × Option Nat) :=
+/-- mirrors: clock.rs::Clock::update — returns the new clock and the "new tick count" result -/
+def update (c : Clock α) (dt : α) (info : Info α) : Clock α × Option Nat :=
   let speed' := (c.speed.update twCs dt info).1
   let c1 := { c with speed := speed' }
-  if !c.ticking then some (c1, none)
+  if !c.ticking then (c1, none)
   else
     let start : Nat × α × Option Nat := match c.state with
       | .notStarted => (0, (0.0 : α), some 0)
       | .started t f => (t, f, none)
     let timer := start.2.1 + speed'.value.asTicksPerSecond * dt
-    match tickLoop fuel start.1 timer with
-    | none => none
-    | some (t', f') =>
-      some ({ c1 with state := .started t' f' }, if t' = start.1 then start.2.2 else some t')
+    let r := tickStep start.1 timer
+    ({ c1 with state := .started r.1 r.2 }, if (1.0 : α) ≤ timer then some r.1 else start.2.2)
 
 /-- a run of updates with a constant `Info` (one per element of `dts`) -/
-def run (fuel : Nat) (c : Clock α) (info : Info α) : List α → Option (Clock α)
-  | [] => some c
-  | dt :: rest =>
-    match c.update fuel dt info with
-    | none => none
-    | some (c', _) => run fuel c' info rest
+def run (c : Clock α) (info : Info α) : List α → Clock α
+  | [] => c
+  | dt :: rest => run (c.update dt info).1 info rest
 
 /-! ### the handle (caller's thread) -/
 
